@@ -105,7 +105,8 @@ PROPS = {
               '(Kani, full domain, loop-free: complete); letter table; fold seed/step; octal bits <-> Mode for every u32; '
               'the 07777 mask; and (Verus, text layer) compile_perm_check emits the all-bits-equal / all-given-bits-set / '
               'any-given-bit-set comparison for Equal / AtLeast / Any over exactly the bits of the mode.',
-        not_decided=['prefix dispatch (none, -, /) and the [ugoa]+[+-=][rwx]+ tokenisation (winnow combinators)',
+        not_decided=['prefix dispatch (none, -, /) and the [ugoa]+[+-=][rwx]+ tokenisation (winnow combinators): covered only by the BOUNDED stand-in '
+                     'BOUNDED.parse_perm (all octal values, all single clauses, two-clause lists; labelled bounded, not counted as proved)',
                      'u32::from_str_radix(_, 8) (std)', 'std Iterator::fold applies the step to the clauses in order'],
         trusted=['Kani 0.68 / CBMC 6.11; bitflags 2.x is executed, not modelled',
                  'winnow hands each lifted closure only what its combinator admits (domain anchors checked present)'],
